@@ -48,6 +48,12 @@ Theorem C13_raises_iff_unsupported : forall i, isSome (snd (model_C13 i)) = unsu
 Proof. exact raises_iff_unsupported. Qed.
 Print Assumptions C13_raises_iff_unsupported.
 
+(* toimpl.alter_column wraps the impl-level call in DROP / ADD CONSTRAINT for type-bound CHECKs only; those
+   statements leave the six column attributes alone *)
+Theorem C13_toimpl_frame : forall i st0, run (fst (model_C13 i)) st0 = run (fst (inner_C13 i)) st0.
+Proof. exact toimpl_frame. Qed.
+Print Assumptions C13_toimpl_frame.
+
 (* FINDING: outside MySQL/MariaDB a requested autoincrement is never applied (no statement touches it, nothing
    is raised), so the full-strength statement is false there *)
 Theorem C13_autoinc_ignored : forall i st0,
@@ -89,3 +95,8 @@ Example C13_decider_nonvacuous :
   check_C13 nv_in (model_C13 nv_in) = true /\ check_C13 nv_raise (model_C13 nv_raise) = true /\
   check_C13 nv_in ([MySQLChange 2%N (mkSpec T0 false true None (Some 30%N))], None) = false.
 Proof. exact decider_nonvacuous. Qed.
+Example C13_toimpl_nonvacuous :
+  model_C13 (mkIn Doracle false (mkReq (Some (mkTy 13 false (Some 51%N))) None TFalse None TFalse None None)
+                  (mkEx 1%N (Some (mkTy 12 false (Some 50%N))) None TFalse None None))
+  = ([DropConstraint 50%N; SetType (mkTy 13 false (Some 51%N)) None; AddConstraint 51%N], None).
+Proof. reflexivity. Qed.
